@@ -46,6 +46,8 @@ func IsInjected(err error) bool {
 
 // Plan says which calls of a wrapper fail.
 type Plan struct {
+	FromCall  int             // 1-based; 0 = none. Every call from this one on fails (a resolver that stays down).
+	JunkName  bool            // return a non-empty name together with the error (callers must look at the error)
 	KthCall   int             // 1-based; 0 = none. The k-th call fails.
 	Paths     map[string]bool // path-keyed: fail whenever asked for one of these paths
 	Transient int             // if >0, only the first Transient matching calls fail, then the fault heals
@@ -106,9 +108,12 @@ func (w *Pkg) ResolvePackage(path string) (string, error) {
 	}
 	w.Seen[path]++
 	if w.Plan != nil {
-		hit := w.Plan.KthCall == w.Calls || w.Plan.Paths[path]
+		hit := w.Plan.KthCall == w.Calls || w.Plan.Paths[path] || (w.Plan.FromCall > 0 && w.Calls >= w.Plan.FromCall)
 		if hit && (w.Plan.Transient == 0 || w.Fired < w.Plan.Transient) {
 			w.Fired++
+			if w.Plan.JunkName {
+				return "junk", w.Plan.err()
+			}
 			return "", w.Plan.err()
 		}
 	}
@@ -148,7 +153,9 @@ func StubFinder(m map[string]string) func(ctxt *build.Context, importPath, fromD
 	return func(ctxt *build.Context, importPath, fromDir string, mode build.ImportMode) (*build.Package, error) {
 		n, ok := m[importPath]
 		if !ok {
-			return nil, fmt.Errorf("%w: %s", ErrStubNotFound, importPath)
+			// like go/build, which returns the partially filled package together with some errors
+			// (MultiplePackageError, NoGoError): a name may accompany the error
+			return &build.Package{Name: "partial", ImportPath: importPath}, fmt.Errorf("%w: %s", ErrStubNotFound, importPath)
 		}
 		return &build.Package{Name: n, ImportPath: importPath}, nil
 	}
